@@ -7,6 +7,7 @@ from sim.simlib import Sim, pdu
 
 ID = 'C16'
 TARGETS = ['SmppVerif.Props.C16']
+THOROUGH_ROUNDS = 10
 RULE = ('sessions with enquire_link_interval I in {2.5, 4, 10} and socket_timeout T in {1.5, 2, 5} (seconds, virtual): the SMSC answers '
         'the k-th enquire_link after a delay drawn from {0, 0.25, T-0.25, T+0.25, never}, and sends unsolicited PDUs '
         '(enquire_link, deliver_sm, an unknown command, an unparsable deliver_sm) at random milliseconds, in bursts, periodically '
